@@ -459,6 +459,16 @@ func c12Chunk(c *ctx, b []byte, mode string) [][]byte {
 		for i := range b {
 			out = append(out, b[i:i+1])
 		}
+	case mode[0] == 'z': // like r<seed>, with idle (0, nil) reads in between: an empty chunk
+		for _, ch := range c12Chunk(c, b, "r"+mode[1:]) {
+			out = append(out, ch)
+			if (len(ch)+len(out))%2 == 0 {
+				out = append(out, []byte{})
+			}
+		}
+		if len(out) > 0 {
+			out = append([][]byte{{}}, out...)
+		}
 	default: // r<seed>
 		seed, _ := strconv.ParseInt(mode[1:], 10, 64)
 		x := uint64(seed)*6364136223846793005 + 1442695040888963407
@@ -858,7 +868,7 @@ func runC12(c *ctx) {
 		}
 	}
 	for _, e := range encs {
-		for _, ch := range []string{"1", fmt.Sprintf("r%d", c.rng.Intn(1000)), "w"} {
+		for _, ch := range []string{"1", fmt.Sprintf("r%d", c.rng.Intn(1000)), "w", fmt.Sprintf("z%d", c.rng.Intn(1000))} {
 			if e.p.big && ch == "1" && !c.thor {
 				continue
 			}
@@ -918,6 +928,15 @@ func runC12(c *ctx) {
 			cs = append(cs, b)
 		}
 		c12C(c, -1, cs)
+	}
+	// sources that answer some reads with (0, nil) while data remains: not the end of the source
+	for _, br := range []bool{false, true} {
+		for _, end := range []string{"eof", "eofl", "fail"} {
+			for _, cs := range [][][]byte{{{1, 2}, {}, {3}, {}, {}, {4, 5, 6}}, {{}, {1}}, {{1}, {}}, {{}, {}, {7, 8, 9, 10}, {}}} {
+				c12S(c, br, end, cs, []string{"r1", "r1", "r1", "r1", "r1", "r1", "r1", "r1", "r1", "r1", "r1", "r1", "r1", "r1", "r1", "r1", "r1", "r1", "r1", "r1", "r1", "r1", "r1"})
+				c12S(c, br, end, cs, []string{"r5", "r5", "r5", "r64", "r64", "r64", "r64", "r64", "r64", "r64", "r64", "r64", "r64"})
+			}
+		}
 	}
 	for _, br := range []bool{false, true} {
 		c12S(c, br, "fail", [][]byte{{1, 2}, {3}}, []string{"r1", "r5", "r5", "r5", "r5"})
